@@ -2,13 +2,20 @@
 
 spec/pybridge/PyBridge.tla   layer A: Go values, Python objects, ToPy / FromPy, RoundTrip, Call, Lookup
 spec/pybridge/PyCases.tla    TLC enumerates the value terms (every Go kind x 64-bit boundary set, floats, UTF-8 text incl. NUL,
-                             byte strings incl. invalid UTF-8, nested lists/tuples of depth <= 2), all argument tuples of arity
+                             byte strings incl. invalid UTF-8 ([]byte also with spare capacity), nested lists/tuples of depth <= 2), all argument tuples of arity
                              0..6 over three atoms for the fixed-arity and the variadic callable, and the name lookups, checks
                              the RoundTrip law and prints for each case what Python must receive and what Go must read back
 spec/pybridge/PyImports.tla  layer A import machine: every program shape (1-3 Go packages, bindings of math / json / a local
                              module bound twice, use sites var/init/run), every topological initialisation order; invariants
                              imported-at-most-once, loaded-before-use, exactly-the-used-ones; prints import counts and, for the
                              shapes that are built, every allowed event trace
+spec/pybridge/PyCallShapes.tla  TLC enumerates the ways a Go program declares and calls a binding: two declarations of one Python
+                             attribute with 0..3 parameters used one after the other (16 ordered pairs), bindings with an ordinary Go
+                             variadic parameter called with 0..3 literal or spread arguments (and lib/py/math.Hypot), a Python
+                             function named through its binding passed as an argument of a call; every call must deliver all its
+                             positional arguments in order; one Go package calling functions of a module and of its dotted submodule
+                             (every subset of four symbols, names sorting before and after the submodule's); one Go package per
+                             case where the calling package's compile state matters, so that a compiler failure is attributed
 spec/pybridge/PyImportImpl.tla  layer B: llgo's mechanism (per-package init guard, link-once module global with nil test,
                              per-package symbol tables filled after the imports' init) checked against A (report only)
 binding: generated llgo programs linked against libpython3.11 send every value to the local Python module
@@ -215,7 +222,8 @@ def expectation(c):
 def case_key(c):
     fam = c["fam"]
     if fam == "leaf":
-        return "leaf:%s:%s:%s" % (c["route"], c["go"]["k"], canon_go(c["go"]))
+        form = c.get("form", "exact")
+        return "leaf:%s:%s:%s" % (c["route"], c["go"]["k"], canon_go(c["go"])) + ("" if form == "exact" else ":" + form)
     if fam == "nested":
         return "nested:%s:%s" % ("static" if c.get("static") else "dyn", canon_go(c["go"]))
     if fam == "calls":
@@ -295,6 +303,29 @@ func start(id int) bool {
 	return true
 }
 
+// spare: the value as a sub-slice of a longer array whose other elements hold other bytes (cap = len + 5)
+func spare(b []byte) []byte {
+	backing := make([]byte, len(b)+7)
+	for i := range backing {
+		backing[i] = 0xA5
+	}
+	copy(backing[2:], b)
+	return backing[2 : 2+len(b)]
+}
+
+// grown: the value appended to an empty slice of capacity 16 whose backing array holds other bytes
+func grown(b []byte) []byte {
+	s := make([]byte, 16)
+	for i := range s {
+		s[i] = 0x5A
+	}
+	s = s[:0]
+	for _, x := range b {
+		s = append(s, x)
+	}
+	return s
+}
+
 var _ = bvsub.Who
 var _ = unsafe.Pointer(nil)
 var _ = vx.Enc
@@ -348,13 +379,14 @@ def gen_value_program(cases):
     for i, c in enumerate(cases):
         if c["fam"] == "leaf" and c["route"] != "strlit":
             g = c["go"]
-            gk = (c["route"], g["k"], len(g["b"]) if g["k"] == "array" else -1)
+            gk = (c["route"], g["k"], len(g["b"]) if g["k"] == "array" else -1, c.get("form", "exact"))
             groups.setdefault(gk, []).append(i)
     for gi, (gk, ids) in enumerate(sorted(groups.items())):
-        route, kind, alen = gk
+        route, kind, alen, form = gk
         gotype = "[%d]byte" % alen if kind == "array" else GO_TYPE[kind]
         go.append("var g%d_ids = []int{%s}" % (gi, ",".join(map(str, ids))))
-        go.append("var g%d_vals = []%s{%s}" % (gi, gotype, ", ".join(go_leaf_literal(cases[i]["go"]) for i in ids)))
+        lit = (lambda x: x) if form == "exact" else (lambda x, f=form: "%s(%s)" % (f, x))
+        go.append("var g%d_vals = []%s{%s}" % (gi, gotype, ", ".join(lit(go_leaf_literal(cases[i]["go"])) for i in ids)))
         go.append("func group%d() {\n\tfor i, v := range g%d_vals {\n\t\tid := g%d_ids[i]\n\t\tif !start(id) {\n\t\t\tcontinue\n\t\t}" % (gi, gi, gi))
         go.append("\t\to := bvmod.Echo(%s)" % ROUTE_EXPR[route])
         go.append('\t\tprintln("C", id, vx.Enc(o))')
@@ -668,7 +700,7 @@ def load_cases(chk, thorough, sd):
             if c["route"] == "strlit":
                 return (1, (), i)
             g = c["go"]
-            return (0, (c["route"], g["k"], len(g["b"]) if g["k"] == "array" else -1), i)
+            return (0, (c["route"], g["k"], len(g["b"]) if g["k"] == "array" else -1, c.get("form", "exact")), i)
         if c["fam"] == "nested":
             return (2 if c.get("static") else 3, (), i)
         return (4 if c["fam"] == "calls" else 5, (), i)
@@ -801,9 +833,15 @@ MODOF = {"json": "json", "math": "math", "vmod": "vmod", "vmod2": "vmod"}
 PKGDIR = {"a": "pa", "b": "pb"}
 
 
+def blank_of(sh, p):
+    return list(sh.get("blank", {}).get(p, []))
+
+
 def shape_key(sh):
-    return "shape:%s:ab=%d:%s" % ("+".join(sorted(sh["pkgs"])), 1 if sh["ab"] else 0,
-                                  ";".join("%s@%s=%s" % (p, sh["site"][p], ",".join(sh["uses"][p])) for p in sorted(sh["pkgs"])))
+    key = "shape:%s:ab=%d:%s" % ("+".join(sorted(sh["pkgs"])), 1 if sh["ab"] else 0,
+                                 ";".join("%s@%s=%s" % (p, sh["site"][p], ",".join(sh["uses"][p])) for p in sorted(sh["pkgs"])))
+    bl = ["%s=%s" % (p, ",".join(blank_of(sh, p))) for p in sorted(sh["pkgs"]) if blank_of(sh, p)]
+    return key + (":blank:" + ";".join(bl) if bl else "")       # binding packages imported but never called
 
 
 def use_result(p, b):
@@ -825,6 +863,7 @@ def gen_shape_program(sh, generic=False):
         site = sh["site"][p]
         pkgname = "main" if p == "main" else PKGDIR[p]
         imps = (['"c19prog/vx"', '"github.com/goplus/lib/py"'] if uses else []) + [BIND_IMPORT[b] for b in uses]
+        imps += ["_ " + BIND_IMPORT[b] for b in blank_of(sh, p)]          # imported, never used
         if p == "main":
             imps += ['"c19prog/%s"' % PKGDIR[q] for q in sorted(sh["pkgs"]) if q != "main"]
             imps += ['"github.com/goplus/lib/c"', '"github.com/goplus/lib/py"']
@@ -939,15 +978,32 @@ def select_shapes(shapes, thorough, sd):
     return list(sel.values())
 
 
+def fixed_shapes(thorough):
+    """program shapes that are always built, whatever the seed (their keys may be listed in known-findings.txt): a binding
+    package that is imported and never called"""
+    def sh(pkgs, uses, blank):
+        site = {"main": "run", "a": "init", "b": "var"}
+        return {"pkgs": sorted(pkgs), "ab": False, "uses": {p: uses.get(p, []) for p in pkgs},
+                "blank": {p: blank.get(p, []) for p in pkgs}, "site": {p: site[p] for p in pkgs}}
+    out = [sh(["main"], {}, {"main": ["math"]})]                       # the program's only Python use is a blank import
+    if thorough:
+        out += [sh(["main", "a"], {}, {"a": ["math"]}),                # ... in a package that main imports
+                sh(["main"], {}, {"main": ["vmod"]}),                  # ... of a local module
+                sh(["main", "a"], {"main": ["vmod2"]}, {"a": ["vmod"]}),   # imported blank here, used through another binding there
+                sh(["main"], {"main": ["math"]}, {"main": ["json"]})]
+    return out
+
+
 def tla_set(xs):
     return "{" + ", ".join('"%s"' % x for x in sorted(xs)) + "}"
 
 
 def tla_shape(sh):
     ps = sorted(sh["pkgs"])
-    return "[pkgs |-> %s, ab |-> %s, uses |-> %s, site |-> %s]" % (
+    return "[pkgs |-> %s, ab |-> %s, uses |-> %s, blank |-> %s, site |-> %s]" % (
         tla_set(ps), "TRUE" if sh["ab"] else "FALSE",
         "(" + " @@ ".join('("%s" :> %s)' % (p, tla_set(sh["uses"][p])) for p in ps) + ")",
+        "(" + " @@ ".join('("%s" :> %s)' % (p, tla_set(blank_of(sh, p))) for p in ps) + ")",
         "(" + " @@ ".join('("%s" :> "%s")' % (p, sh["site"][p]) for p in ps) + ")")
 
 
@@ -968,6 +1024,8 @@ def part_imports(chk, thorough, sd):
         raise C.Undecided("PyImports printed no shapes")
     chk.cov["import_shapes_enumerated"] = len(shapes)
     sel = select_shapes(shapes, thorough, sd)
+    have = {shape_key(sh) for sh in sel}
+    sel += [sh for sh in fixed_shapes(thorough) if shape_key(sh) not in have]
     # (2) the selected shapes: every allowed event trace
     mc = os.path.join(rd, "MCImports.tla")
     with open(mc, "w") as f:
@@ -977,8 +1035,10 @@ def part_imports(chk, thorough, sd):
         raise C.Undecided("MCImports failed: %s" % res2.violation)
     chk.add_tlc(res2, "PyImports/selected-traces")
     allowed = {}
+    allowed_counts = {}          # a module that is imported but never used may or may not be requested: more than one count vector
     for r in C.tlc_printed_iter(res2):
         allowed.setdefault(shape_key(r["shape"]), set()).add(json.dumps(r["trace"]))
+        allowed_counts.setdefault(shape_key(r["shape"]), set()).add(json.dumps(r["icount"], sort_keys=True))
     for sh in sel:
         if shape_key(sh) not in allowed:
             raise C.Undecided("no allowed trace printed for " + shape_key(sh))
@@ -990,7 +1050,7 @@ def part_imports(chk, thorough, sd):
             return ix, None, out
         st, so, _ = C.run_exe(exe, timeout=120, env=py_env(), merge=True)
         return ix, st, so
-    with ThreadPoolExecutor(max_workers=6 if thorough else 1) as ex:
+    with ThreadPoolExecutor(max_workers=6 if thorough else 2) as ex:
         results = list(ex.map(one, range(len(sel))))
     negdone = False
     for ix, st, so in results:
@@ -999,7 +1059,7 @@ def part_imports(chk, thorough, sd):
         if st is None:
             raise C.Undecided("llgo could not build the program of %s:\n%s" % (key, so[-3000:]))
         ev, problems = parse_shape_trace(so)
-        replay = {"shape": {k: sh[k] for k in ("pkgs", "ab", "uses", "site")}, "output": so[-4000:], "events": ev,
+        replay = {"shape": {k: sh[k] for k in ("pkgs", "ab", "uses", "blank", "site") if k in sh}, "output": so[-4000:], "events": ev,
                   "files": gen_shape_program(sh, generic=(ix % 2 == 1))}
         if st == 0 and ev[-1:] != [["I", "vpk"]]:
             raise C.Undecided("the import hook did not report the canary import of %s: import requests cannot be observed\n%s" % (key, so[-1500:]))
@@ -1007,17 +1067,20 @@ def part_imports(chk, thorough, sd):
             ev = ev[:-1]
             replay["events"] = ev
         if st != 0:
-            chk.reject(key + ":crash", "the program ended with status %s (a module used before it was imported shows up as a crash)" % st, replay)
+            chk.reject(key + ":crash", "the program ended with status %s (a module used before it was imported, or imported before the "
+                       "interpreter was started, shows up as a crash)" % st, replay)
+            bump(chk, "evaluations")
+            bump(chk, "traces_validated_against_impl")
             continue
         if problems:
             chk.reject(key + ":calls", "; ".join(problems[:4]), replay)
         counts = {m: sum(1 for e in ev if e[0] == "I" and e[1] == m) for m in ("math", "json", "vmod")}
-        if counts != sh["icount"]:
-            chk.reject(key + ":import-count", "import requests per module %r, spec says %r" % (counts, sh["icount"]), replay)
+        if json.dumps(counts, sort_keys=True) not in allowed_counts[key]:
+            chk.reject(key + ":import-count", "import requests per module %r, spec says %s" % (counts, " or ".join(sorted(allowed_counts[key]))), replay)
         elif json.dumps(ev) not in allowed[key]:
             chk.reject(key + ":order", "the observed order of imports, package initialisations and uses is none of the %d orders the spec allows: %s"
                        % (len(allowed[key]), ev), replay)
-        if not negdone:
+        if not negdone and any(e[0] == "I" for e in ev):
             # negative control: the same membership test must refuse a trace with one import duplicated and one moved behind its use
             dup = ev + [e for e in ev if e[0] == "I"][:1]
             late = [e for e in ev if e[0] != "I"] + [e for e in ev if e[0] == "I"]
@@ -1028,7 +1091,10 @@ def part_imports(chk, thorough, sd):
         bump(chk, "traces_validated_against_impl")
         bump(chk, "distinct_nontrivial")
         chk.sample({"shape": key, "observed_events": ev, "allowed_orders": len(allowed[key])}, limit=8)
+    if not negdone and not chk.violations:
+        raise C.Undecided("negative control of the import traces could not be run: no program reported an import")
     chk.cov["import_programs_built"] = len(sel)
+    chk.cov["import_shapes_fixed"] = [shape_key(sh) for sh in fixed_shapes(thorough)]
 
 
 def part_impl_model(chk):
@@ -1045,6 +1111,297 @@ def part_impl_model(chk):
                                                           "as_expected": res.ok == want_ok})
         if res.ok != want_ok:
             C.log("note: PyImportImpl/%s: %s (layer B drift, not a verdict)" % (cfg, res.violation or "no violation although the import guard is removed"))
+
+
+# ----------------------------------------------------------------------------- part 3: call shapes (PyCallShapes.tla)
+
+CK_ARGS = ["i7", "s61", "f%d" % FLOAT_BITS["half"], "i-2"]        # what harness/c19/gomod/ck.Arg(i) builds; must equal the spec's ArgSeq
+REF_GO = {"vmod.who": "bvmod.Who", "vpk_sub.who": "bvsub.Who", "builtins.abs": "std.Abs"}
+REF_PYMOD = {"vmod": "vmod", "vpk_sub": "vpk.sub", "builtins": "builtins", "vpk": "vpk"}
+SYM_GO = {"vmod.who": "bvmod.Who()", "vpk.alpha": "bvpk.Alpha()", "vpk_sub.who": "bvsub.Who()", "vpk.zeta": "bvpk.Zeta()"}
+SHAPE_PKG_IMPORT = {"bvmod.": '"c19prog/bvmod"', "bvsub.": '"c19prog/bvsub"', "bvpk.": '"c19prog/bvpk"', "std.": '"github.com/goplus/lib/py/std"',
+                    "bdual.": '"c19prog/bdual"', "bgv.": '"c19prog/bgv"', "math.": '"github.com/goplus/lib/py/math"',
+                    "py.": '"github.com/goplus/lib/py"', "vx.": '"c19prog/vx"', "ck.": '"c19prog/ck"'}
+
+
+def whole_float_text(n):
+    return "f%d" % struct.unpack(">Q", struct.pack(">d", float(n)))[0]
+
+
+def canon_arg_py(o):
+    if o["t"] == "func":
+        return "c" + (o["mod"] + "." + o["name"]).encode("utf-8").hex()
+    if o["t"] == "tuple":
+        return "T[" + ",".join(canon_arg_py(e) for e in o["items"]) + "]"
+    return canon_py(o)
+
+
+def shape_case_key(c):
+    fam = c["fam"]
+    if fam == "dual":
+        return "dual:first=%d:second=%d" % (c["first"], c["second"])
+    if fam == "govar":
+        return "govar:fixed=%d:%s:n=%d" % (c["fixed"], c["form"], c["nvar"])
+    if fam == "hypot":
+        return "hypot:" + (",".join(str(x) for x in c["coords"]) or "none")
+    if fam == "colookup":
+        return "colookup:" + "+".join("%s.%s" % (y["mod"], y["attr"]) for y in c["syms"])
+    return "funcref:n=%d:pos=%d:%s.%s" % (c["n"], c["pos"], c["ref"]["mod"], c["ref"]["attr"])
+
+
+def shape_pyname(c):
+    return {"dual": "fv", "funcref": "fv", "govar": "gv" if c.get("fixed") == 0 else "gv1"}[c["fam"]]
+
+
+def shape_expectation(c):
+    """the lines between 'G id' and the next case: python's log of each call, then Go's read-back of its result"""
+    if c["fam"] == "hypot":
+        return ["R " + whole_float_text(c["ret"]["whole"])]
+    if c["fam"] == "colookup":
+        return ["R " + canon_py(y["py"]) for y in c["syms"]]
+    out = []
+    for call in c["calls"]:
+        out.append("F %s T[%s]" % (shape_pyname(c), ",".join(canon_arg_py(o) for o in call["recv"])))
+        out.append("R " + canon_arg_py(call["ret"]))
+    return out
+
+
+def shape_go_arg(a, i):
+    if a["k"] == "funcref":
+        return REF_GO[a["mod"] + "." + a["attr"]]
+    if canon_go(a) != CK_ARGS[i]:
+        raise C.Undecided("harness out of step with the spec: argument %d of PyCallShapes is %s, package ck builds %s" % (i + 1, canon_go(a), CK_ARGS[i]))
+    return "ck.Arg(%d)" % i
+
+
+def shape_py_arg(a):
+    if a["k"] == "funcref":
+        return "getattr(importlib.import_module(%r), %r)" % (REF_PYMOD[a["mod"]], a["attr"])
+    return pyexpr(a)
+
+
+def shape_go_calls(c):
+    """Go expressions (one per call of the case) of type *py.Object"""
+    fam = c["fam"]
+    if fam == "hypot":
+        return ["math.Hypot(%s)" % ", ".join("py.Float(%d)" % x for x in c["coords"])]
+    if fam == "colookup":
+        return [SYM_GO[y["mod"] + "." + y["attr"]] for y in c["syms"]]
+    if fam == "dual":
+        return ["bdual.D%d(%s)" % (len(call["args"]), ", ".join(shape_go_arg(a, i) for i, a in enumerate(call["args"]))) for call in c["calls"]]
+    if fam == "funcref":
+        return ["bvmod.FV(%s)" % ", ".join(shape_go_arg(a, i) for i, a in enumerate(c["calls"][0]["args"]))]
+    args = c["calls"][0]["args"]
+    if len(args) != c["fixed"] + c["nvar"]:
+        raise C.Undecided("spec/harness mismatch in govar case %r" % (c,))
+    fixed = [shape_go_arg(a, i) for i, a in enumerate(args[:c["fixed"]])]
+    if c["form"] == "lit":
+        rest = [shape_go_arg(a, i) for i, a in enumerate(args) if i >= c["fixed"]]
+    else:
+        for i, a in enumerate(args):
+            shape_go_arg(a, i)                                      # the table check
+        rest = ["ck.Args(%d, %d)..." % (c["fixed"], c["nvar"])]
+    return ["bgv.%s(%s)" % ("GV" if c["fixed"] == 0 else "GV1", ", ".join(fixed + rest))]
+
+
+def shape_py_calls(c):
+    if c["fam"] == "hypot":
+        return ["math.hypot(%s)" % ", ".join("%d.0" % x for x in c["coords"])]
+    if c["fam"] == "colookup":
+        return ["getattr(importlib.import_module(%r), %r)()" % (REF_PYMOD[y["mod"]], y["attr"]) for y in c["syms"]]
+    return ["vmod.%s(%s)" % (shape_pyname(c), ", ".join(shape_py_arg(a) for a in call["args"])) for call in c["calls"]]
+
+
+def shape_pkg_of(i, c):
+    return {"dual": "du%02d" % i, "govar": "gvp", "hypot": "hyp", "funcref": "frp", "colookup": "lk%02d" % i}[c["fam"]]
+
+
+def gen_shape_modules(cases, dropped=()):
+    """-> files of the Go module: one package per dual case (the binding that is seen first is a property of the calling
+    package), one package per other family; main runs them in id order"""
+    pkgs = {}
+    for i, c in enumerate(cases):
+        pkgs.setdefault(shape_pkg_of(i, c), []).append(i)
+    files = {}
+    order = []
+    for pkg, ids in pkgs.items():
+        if pkg in dropped:
+            continue
+        body = []
+        for i in ids:
+            body.append("func case%d() {\n\tif !ck.Start(%d) {\n\t\treturn\n\t}" % (i, i))
+            for call in shape_go_calls(cases[i]):
+                body.append('\tprintln("R", vx.Enc(%s))' % call)
+            body.append("}\n")
+        body.append("func Run() {")
+        body += ["\tcase%d()" % i for i in ids]
+        body.append("}")
+        text = "\n".join(body)
+        imps = sorted(v for k, v in SHAPE_PKG_IMPORT.items() if k in text)
+        files["%s/%s.go" % (pkg, pkg)] = ("// generated by /verif/vlib/c19.py (call shapes)\npackage %s\n\nimport (\n%s\n)\n\n%s\n"
+                                          % (pkg, "\n".join("\t" + x for x in imps), text))
+        order.append((ids[0], pkg))
+    order.sort()
+    main = ["// generated by /verif/vlib/c19.py (call shapes)", "package main", "", "import ("]
+    main += ['\t"c19prog/ck"', '\t"c19prog/pyx"'] + ['\t"c19prog/%s"' % pkg for _, pkg in order] + ['', '\t"github.com/goplus/lib/c"', ")", ""]
+    main.append('func main() {\n\tif p := pyx.Getenv(c.Str("C19_SKIP")); p != nil {\n\t\tck.Skip = int(c.Atoi(p))\n\t}')
+    main += ["\t%s.Run()" % pkg for _, pkg in order]
+    main.append('\tprintln("END")\n}')
+    files["main.go"] = "\n".join(main) + "\n"
+    return files, pkgs
+
+
+def gen_shape_twin(cases):
+    py = ["import importlib, math, os, struct", "import vmod", "from vmod import enc", "def w(s): os.write(2, (s + '\\n').encode())",
+          "def F(b): return struct.unpack('>d', struct.pack('>Q', b))[0]"]
+    for i, c in enumerate(cases):
+        py.append("w('G %d')" % i)
+        py += ["w('R ' + enc(%s))" % call for call in shape_py_calls(c)]
+    py.append("w('END')")
+    return "\n".join(py) + "\n"
+
+
+def parse_shape_protocol(text):
+    obs = {}
+    cur = None
+    other = []
+    for line in text.splitlines():
+        p = line.split(" ")
+        if p[0] == "G" and len(p) == 2 and p[1].isdigit():
+            cur = int(p[1])
+            obs[cur] = []
+        elif p[0] in ("F", "R") and cur is not None:
+            obs[cur].append(line)
+        else:
+            other.append(line)
+    return obs, cur, other
+
+
+def run_shape_protocol(cmd, env, ncases, timeout=120):
+    """every case that kills the process is attributed: the run is restarted behind it -> obs, {id: status}, outside"""
+    obs = {}
+    crashed = {}
+    skip = 0
+    for _ in range(ncases + 2):
+        e = dict(env)
+        e["C19_SKIP"] = str(skip)
+        st, so, _ = C.run_exe(cmd[0], args=cmd[1:], timeout=timeout, env=e, merge=True)
+        o, last, other = parse_shape_protocol(so)
+        for k, v in o.items():
+            if k >= skip:
+                obs[k] = v
+        if st == 0 and "END" in other:
+            return obs, crashed, None
+        if last is None or last < skip:
+            return obs, crashed, (st, so[-1500:])
+        crashed[last] = (st, so[-600:])
+        skip = last + 1
+    return obs, crashed, ("restart limit", "")
+
+
+def llgo_build_verbose(moddir, out, rundir, timeout=1500):
+    """as common.llgo_build, with -v: llgo names every package before it compiles it, which attributes a compiler failure"""
+    env = C.llgo_env("O0", rundir, opt="O0", tags="")
+    try:
+        r = subprocess.run([C.llgo_binary(), "build", "-v", "-O0", "-o", out, "."], cwd=moddir, env=env, capture_output=True,
+                           text=True, timeout=timeout)
+    except subprocess.TimeoutExpired:
+        return False, "timeout"
+    return r.returncode == 0 and os.path.exists(out), r.stdout + r.stderr
+
+
+def part_callshapes(chk):
+    import re
+    res = C.tlc(SPEC, "PyCallShapes", "shapes_all.cfg", chk.rd.path, timeout=900, parse_json=False)
+    if not res.ok:
+        raise C.Undecided("PyCallShapes: a law of the spec failed in TLC (spec defect): %s" % res.violation)
+    chk.add_tlc(res, "PyCallShapes/all")
+    bykey = {}
+    for c in C.tlc_printed_iter(res):
+        bykey[shape_case_key(c)] = c
+    famrank = {"dual": 0, "govar": 1, "hypot": 2, "funcref": 3, "colookup": 4}
+    cases = [c for _, c in sorted(bykey.items(), key=lambda kc: (famrank[kc[1]["fam"]], kc[0]))]
+    counts = {}
+    for c in cases:
+        counts[c["fam"]] = counts.get(c["fam"], 0) + 1
+    if sorted(counts) != sorted(famrank):
+        raise C.Undecided("PyCallShapes printed no cases for some family: %r" % counts)
+    exp = [shape_expectation(c) for c in cases]
+    rd = chk.rd.sub("callshapes")
+    # reference: python3 making the same calls (function arguments resolved by getattr(import_module(..), ..)) must satisfy the spec
+    twin = os.path.join(rd, "twin.py")
+    with open(twin, "w") as f:
+        f.write(gen_shape_twin(cases))
+    robs, rcr, rout = run_shape_protocol([sys.executable, twin], py_env({"VERIF_C19_HOOK": "0"}), len(cases))
+    rbad = [(shape_case_key(cases[i]), robs.get(i), exp[i]) for i in range(len(cases)) if robs.get(i) != exp[i]]
+    if rcr or rout or rbad:
+        raise C.Undecided("self-validation failed: python3 itself disagrees with PyCallShapes on %d cases, e.g. %s %s" % (len(rbad), rbad[:2], rout))
+    # build; a package the compiler cannot compile is reported for its cases and left out of the next attempt
+    dropped = {}
+    exe = None
+    for attempt in range(8):
+        files, pkgs = gen_shape_modules(cases, dropped)
+        sub = chk.rd.sub("callshapes%d" % attempt)
+        mod = os.path.join(sub, "mod")
+        make_module(mod, files)
+        exe = os.path.join(sub, "callshapes.exe")
+        ok, out = llgo_build_verbose(mod, exe, sub)
+        if ok:
+            break
+        exe = None
+        named = re.findall(r"^CACHE (?:HIT|MISS): (\S+)\s*$", out, re.M)
+        culprit = named[-1].rsplit("/", 1)[-1] if named and named[-1].startswith("c19prog/") else None
+        if culprit not in pkgs or culprit in dropped:
+            raise C.Undecided("llgo could not build the call-shape program and the failure is not attributable to a case package "
+                              "(last package named: %s):\n%s" % (named[-1:] or None, out[-3000:]))
+        dropped[culprit] = out[-2500:]
+    if exe is None:
+        raise C.Undecided("llgo could not build the call-shape program after leaving out %s" % sorted(dropped))
+    for pkg, out in sorted(dropped.items()):
+        ids = pkgs[pkg]
+        key = (shape_case_key(cases[ids[0]]) if len(ids) == 1 else cases[ids[0]]["fam"]) + ":build"
+        m = re.search(r"^panic: .*$", out, re.M)
+        chk.reject(key, "llgo fails to compile the package that makes the calls of %s (%s)" % (
+            "this case" if len(ids) == 1 else "%d cases" % len(ids), m.group(0) if m else "see replay"),
+            {"cases": [cases[i] for i in ids[:4]], "package": files_of(cases, pkg), "llgo_output_tail": out})
+    built = [i for i, c in enumerate(cases) if shape_pkg_of(i, c) not in dropped]
+    obs, crashed, outside = run_shape_protocol([exe], py_env({"VERIF_C19_HOOK": "0"}), len(cases))
+    if outside:
+        chk.reject("callshapes:died-outside-a-case", "the call-shape program ended with status %s outside any case" % (outside[0],),
+                   {"status": outside[0], "output_tail": outside[1]})
+        return
+
+    def judge_shapes(expected):
+        return [i for i in built if obs.get(i) != expected[i]]
+    # negative control: an expectation with two received arguments swapped must be flagged by the same comparison
+    passing = [i for i in built if obs.get(i) == exp[i] and any("T[" in ln for ln in exp[i])]
+    if passing:                      # (no case passes: every case is reported below, nothing is left to control)
+        wrong = list(exp)
+        wrong[passing[-1]] = [ln.replace("T[", "T[X,", 1) for ln in exp[passing[-1]]]
+        if passing[-1] not in judge_shapes(wrong):
+            raise C.Undecided("negative control not flagged: the call-shape comparison does not compare anything")
+    bad = judge_shapes(exp)
+    for i in bad:
+        c = cases[i]
+        key = shape_case_key(c) + (":crash" if i in crashed else "")
+        what = "the program died in this case (%s); " % (crashed[i][0],) if i in crashed else ""
+        chk.reject(key, "%sobserved %r, the spec says %r" % (what, obs.get(i), exp[i]),
+                   {"case": c, "expected": exp[i], "observed": obs.get(i), "go_calls": shape_go_calls(c),
+                    "crash_output_tail": crashed[i][1] if i in crashed else None,
+                    "program": "generated by vlib/c19.py gen_shape_modules (package %s)" % shape_pkg_of(i, c)})
+    bump(chk, "evaluations", len(cases))
+    bump(chk, "traces_validated_against_impl", len(built))
+    bump(chk, "distinct_nontrivial", len({"|".join(e) for e in exp}))
+    with _LOCK:
+        chk.cov["callshape_cases"] = dict(counts, built=len(built), not_compiled=len(cases) - len(built), crashes=len(crashed),
+                                          mismatches=len(bad))
+    for i in (built[0], built[len(built) // 2], built[-1]):
+        chk.sample({"case": shape_case_key(cases[i]), "go": shape_go_calls(cases[i]), "expected_lines": exp[i], "observed": obs.get(i)}, limit=12)
+
+
+def files_of(cases, pkg):
+    files, _ = gen_shape_modules(cases)
+    return files.get("%s/%s.go" % (pkg, pkg))
 
 
 CONVERT_ONLY = '''package main
@@ -1089,23 +1446,28 @@ def check(chk):
     C.llgo_binary()
     chk.cov["rule"] = ("value case = (Go kind, value, API route) for every Go integer kind x 64-bit boundary set within the kind's range, "
                        "float32/float64 tokens incl. signed zero/inf/NaN/denormals, UTF-8 text of 0-3 code points incl. NUL and 2/3/4-byte "
-                       "sequences, byte strings of 0-3 bytes incl. invalid UTF-8 as []byte and [N]byte, bool; nested list/tuple terms of depth <= 2 "
+                       "sequences, byte strings of 0-3 bytes incl. invalid UTF-8 as []byte (also as a sub-slice of a longer array and as an appended-to slice, spare capacity holding other bytes) and [N]byte, bool; nested list/tuple terms of depth <= 2 "
                        "(built both from objects at run time and, for a seeded subset / all in thorough, as one static py.List/py.Tuple "
                        "expression); call case = argument tuple of arity 0-6 over 3 atoms x {fixed arity, variadic}; lookup case = "
                        "module attribute by name in two modules sharing attribute names; each replayed into an llgo-compiled program "
                        "linked with libpython3.11 and judged on (what Python logged, what Go read back dynamically, typed read-back). "
-                       "import case = program shape built and run, judged on import requests per module and membership of the observed "
+                       "call-shape case (PyCallShapes) = two declarations of one attribute with 0-3 parameters called one after the other / "
+                       "Go-variadic binding called with 0-3 literal or spread arguments / math.Hypot / a bound Python function passed as "
+                       "an argument at each position / every non-empty subset of {vmod.who, vpk.alpha, vpk.sub.who, vpk.zeta} called from one Go package: judged on what Python logged per call and what Go read back, one process restart per "
+                       "crashing case, one Go package per case where the compiler's state matters. "
+                       "import case = program shape built and run (one seeded shape plus fixed shapes with a binding package that is imported and never called), judged on import requests per module and membership of the observed "
                        "event order in the TLC-enumerated set; non-trivial = distinct expected observation")
     serialise(chk)
-    with ThreadPoolExecutor(max_workers=4) as ex:
+    with ThreadPoolExecutor(max_workers=5) as ex:
         fc = ex.submit(load_cases, chk, thorough, sd)
         fi = ex.submit(part_imports, chk, thorough, sd)
         fb = ex.submit(part_impl_model, chk)
         fo = ex.submit(part_convert_only, chk)
+        fs = ex.submit(part_callshapes, chk)
         cases, counts = fc.result()
         fv = ex.submit(part_values, chk, thorough, sd, cases, counts)
         errs = []
-        for f in (fv, fi, fb, fo):
+        for f in (fv, fi, fb, fo, fs):
             try:
                 f.result()
             except Exception as e:           # let every part finish (and clean up) before the first failure is reported
@@ -1122,6 +1484,8 @@ def check(chk):
         "an import request is observed as a call of builtins.__import__ with a list as from-list, which only the C API passes (sitecustomize hook)",
         "only -O0 builds; reference counts are not observed (objects are never released by the test programs)",
         "Go fixes initialisation order only up to 'imports first': any topological order of packages and bindings is accepted",
+        "a module whose binding package is imported but never called may be requested from the interpreter once or not at all; the program must run to its end",
+        "function objects are compared by (defining module, name), and pylib/vmod.py's enc() only prints that pair when the name resolves to the very object it received",
     ]
 
 
